@@ -6,6 +6,7 @@ import (
 	"fmt"
 	"os"
 	"os/exec"
+	"runtime"
 	"sort"
 	"strings"
 	"sync"
@@ -24,11 +25,13 @@ func newCtx(pr *Program, fn *ssa.Function) *Ctx {
 }
 
 // verifyFunction generates all obligations of one function (body against its own contract).
-func (pr *Program) verifyFunction(fn *ssa.Function) *Ctx {
-	c := newCtx(pr, fn)
+func (pr *Program) verifyFunction(fn *ssa.Function) (c *Ctx) {
+	c = newCtx(pr, fn)
 	defer func() {
 		if r := recover(); r != nil {
-			c.errorf("%s: generator panic: %v", c.topName, r)
+			buf := make([]byte, 4096)
+			n := runtime.Stack(buf, false)
+			c.errorf("%s: generator panic: %v\n%s", c.topName, r, buf[:n])
 		}
 	}()
 	st := c.initHeap()
